@@ -52,6 +52,10 @@ def leaf_handlers(level, shape):
         return [(h + 'a', t, 2, [('raise',)]), (h + 'b', t, 1, ('gen', [('y', None), ('y', b + 5)]))]
     if shape == 'GA':   # first instance slow, second fast (asymmetric callers in flight)
         return [(h, t, 2, ('gen', [('yvar', (3, 0)), ('y', b + 5)]))]
+    if shape == 'GC':
+        return [(h, t, 2, ('gen', [('yvar', (6, 0)), ('y', b + 5)]))]
+    if shape == 'GD':
+        return [(h, t, 2, ('gen', [('yvar', (1, 4)), ('y', b + 5)]))]
     if shape == 'GB':   # first instance fast, second slow
         return [(h, t, 2, ('gen', [('yvar', (0, 2)), ('y', b + 5)]))]
     if shape.startswith('S'):
@@ -107,6 +111,11 @@ def programs(tier):
                         yield (c0, s), nroots, rev, t
             for nroots in (1, 2):
                 yield ('waitnever',), nroots, rev, t
+        # two callers in flight with different time-outs against callees of different duration
+        for tp in ((1, 5), (5, 1), (0, 6), (6, 0), (2, 3)):
+            for c0 in ('call', 'waito'):
+                for s in ('GA', 'GB', 'GC', 'GD'):
+                    yield (c0, s), 2, rev, tp
 
 
 def build(program):
@@ -194,8 +203,9 @@ def judge(program, w, res):
                 bad.append(('resume-exception', 'caller %s received %s' % (hid, got)))
             else:
                 elapsed = iters_at[j] - iters_at[i]
-                if elapsed < timeout:
-                    bad.append(('timeout-early', 'TimeoutError after %d loop iterations, timeout=%d' % (elapsed, timeout)))
+                tmo = ghost.World.pick(timeout, w.events[eid])
+                if elapsed < tmo:
+                    bad.append(('timeout-early', 'TimeoutError after %d loop iterations, timeout=%d' % (elapsed, tmo)))
             continue
         if never:
             bad.append(('resume-never', 'wait for an event that never happens returned %r' % (got,)))
@@ -245,7 +255,7 @@ def judge(program, w, res):
 
 
 def pj(program):
-    return {'shapes': list(program[0]), 'roots': program[1], 'reverse_tasks': program[2], 'timeout': program[3]}
+    return {'shapes': list(program[0]), 'roots': program[1], 'reverse_tasks': program[2], 'timeout': list(program[3]) if isinstance(program[3], tuple) else program[3]}
 
 
 def _work(part, nparts, payload):
@@ -290,7 +300,7 @@ def run(tier, seed, workers):
 
 
 def replay(wj):
-    program = (tuple(wj['shapes']), wj['roots'], wj['reverse_tasks'], wj['timeout'])
+    program = (tuple(wj['shapes']), wj['roots'], wj['reverse_tasks'], tuple(wj['timeout']) if isinstance(wj['timeout'], list) else wj['timeout'])
     w, res = execute(program)
     bad = judge(program, w, res)
     text = 'program %r\nrun() -> %r\nlog:\n  %s\nresidue(before, after, tasks)=%r\n' % (
